@@ -26,7 +26,8 @@ REQUIRED_PROBES = ["create_exit"]
 REQUIRED_FEATURES = ["bins:common", "bins:per-cell", "cells:has-empty", "cells:1", "mode:symm", "mode:square",
                      "create:ordered", "create:ordered-false-flag", "names:natsort-trap", "dtypes:count-float",
                      "columns:extra", "bins:common-with-extra-column", "keys:multi-component-path", "keys:one-slash-path",
-                     "history:append-replaces-a-cell", "history:append-new-cells-only"]
+                     "history:append-replaces-a-cell", "history:append-new-cells-only",
+                     "option:ensure_sorted+unsorted-cell-tables"]
 
 CELL_NAMES = ["c2", "c10", "c1", "cell_A.1", "GSM123-rep.2", "10", "2", "sample 3", "Cell", "cell", "x.y.z", "a-b_c",
               "c02", "c010"]
@@ -103,12 +104,18 @@ def one_file(ctx, cid, rng, idx):
     prefix = {0: "", 1: "", 2: "batch1/", 3: "plate7/run2/", 4: "/data/sc/run.3/"}[keystyle]
     keyof = {nm: prefix + nm for nm in names}
     if per_cell_bins:
-        bins_arg = {keyof[nm]: b for nm, b in bins_arg.items()}
+        # the two dictionaries are keyed by EQUAL strings that are separately built objects (as when parsed from paths)
+        bins_arg = {"".join(list(keyof[nm])): b for nm, b in bins_arg.items()}
+    ens = bool(rng.random() < 0.3)          # ensure_sorted=True: cell tables may then come in any row order
     pix_arg = {}
     for nm, P in cells.items():
         df = gen.pixels_frame(P, {"score": scores[nm]} if extra_col else None,
                               count_dtype=np.float64 if float_counts else None)
-        if ordered:
+        if ens and len(df) > 1:
+            df = df.iloc[rng.permutation(len(df))].reset_index(drop=True)
+        if ens:
+            pix_arg[keyof[nm]] = df          # one table per cell: the sort is per chunk
+        elif ordered:
             pix_arg[keyof[nm]] = df if rng.random() < 0.5 else iter(gen.chunk_frames(df, gen.random_cuts(rng, len(df), 4)))
         else:
             # create_scool documents sorted pixel tables; ordered=False must not change the result
@@ -136,6 +143,9 @@ def one_file(ctx, cid, rng, idx):
         if extra_col:
             kw["columns"] = ["count", "score"]
             c.feature("columns:extra")
+        if ens:
+            kw["ensure_sorted"] = True
+            c.feature("option:ensure_sorted+unsorted-cell-tables")
         cooler.create_scool(path, bins_arg, pix_arg, **kw)
         listing = cooler.fileops.list_scool_cells(path)
         c.check(sorted(listing) == sorted(f"/cells/{nm}" for nm in names), "cell-listing-differs",
